@@ -24,7 +24,31 @@ fn main() {
     let args = util::Args::parse(&argv[2..]);
     util::quiet_panics();
     util::init_log();
-    match argv[1].as_str() {
+    // Safety net: a panic of the code under test that escapes the per-call guards (an observer, an API call) is
+    // still data: the trace written so far is flushed by unwinding, a final panic event is appended, exit 0.
+    let world = argv[1].clone();
+    let outp = args.str("out", "");
+    let r = std::panic::catch_unwind(std::panic::AssertUnwindSafe(|| run_world(&world, &args)));
+    if let Err(e) = r {
+        let msg = if let Some(s) = e.downcast_ref::<&str>() { s.to_string() } else if let Some(s) = e.downcast_ref::<String>() { s.clone() } else { "panic".to_string() };
+        let loc = util::last_panic_loc();
+        if !loc.starts_with("/repo/") || outp.is_empty() {
+            // a bug of the harness itself: a tool error
+            eprintln!("harness panic: {} @ {}", msg, loc);
+            std::process::exit(101);
+        }
+        use std::io::Write;
+        if let Ok(mut f) = std::fs::OpenOptions::new().append(true).open(&outp) {
+            let ev = serde_json::json!({"ev":"panic","escaped":true,"msg":format!("{} @ {}", msg, loc),"ep":-1,"now":-1,"op":"escaped","n":0,"off":0,"size":0,"w":0,"k":-1,"before":"?","s":{}});
+            let _ = writeln!(f, "{}", ev);
+        }
+        println!("{}", serde_json::json!({"runs":0,"events":0,"escaped_panic":true}));
+    }
+}
+
+fn run_world(world: &str, args: &util::Args) {
+    let args = args;
+    match world {
         "asm-replay" => asm::replay(&args),
         "asm-random" => asm::random(&args),
         "ring-replay" => ring::replay(&args),
